@@ -456,7 +456,7 @@ PROPS["C20"] = dict(
 )
 
 PROPS["C11"] = dict(
-    harness="c11_races", flavour="rel", intermittent_replays=10, env={"VERIF_MAX_SHRINK_EVALS": "8"}, extra_targets={"tsan": ["c11_tsan_driver"]}, parallel=4, model_guard="tools/check_omp_constructs.py",
+    harness="c11_races", flavour="rel", intermittent_replays=10, env={"VERIF_MAX_SHRINK_EVALS": "8"}, extra_targets={"tsan": ["c11_tsan_driver", "verif_sched"]}, parallel=4, model_guard="tools/check_omp_constructs.py",
     quick=dict(workers=8, cases=480, min_nontrivial=200, budget_s=900),
     thorough=dict(workers=4, cases=6000, min_nontrivial=2000, budget_s=3400),
     rule="(operator, shape class, thread count): operators ResidualGive/Take, SmootherGive/Take, ExtrapolatedSmootherGive/"
@@ -469,7 +469,8 @@ PROPS["C11"] = dict(
          "more threads than lines). Each case runs in a child built with -fsanitize=thread under the Archer OMPT tool "
          "(banner checked), operator executed twice in parallel and once serially. Non-trivial: threads>=2. Distinct: "
          "(operator, circles mod 12, nr, ntheta, BC, threads)."
-         " Third session: a fifth of the whole solves use nr_exp 8 (levels above the 10 000-node threshold, one iteration); setup() runs with the configured thread count; a line-solver operator (n up to 30000).",
+         " Third session: a fifth of the whole solves use nr_exp 8 (levels above the 10 000-node threshold, one iteration); setup() runs with the configured thread count; a line-solver operator (n up to 30000)."
+         " Arrival order: in three quarters of the cases the Archer tool is wrapped by an OMPT tool of the harness that delays threads by seeded pseudo-random amounts at region begin, barrier exit and worksharing end (thread 0 most often), so that `single`, dynamic chunks and nowait successors are not always won by the encountering thread. ThreadSanitizer runs with called_from_lib suppressions for the OpenMP runtime and Archer instead of ignore_noninstrumented_modules=1, which with clang 14 hides every write made through memmove/memcpy (std::copy, std::move into a vector).",
     technique="property-based testing (rapidcheck) over schedule classes (shape x thread count) with a happens-before race detector (ThreadSanitizer + Archer OMPT) as the oracle, plus parallel-vs-serial differential",
     level_text="The code uses only statically scheduled omp-for loops and barriers, so which thread touches which line and "
                "what synchronises them is a function of (operator, grid shape class, thread count); the harness generates "
